@@ -20,7 +20,9 @@ From SNT Require Export Base.Report Base.Outcome Encoder.Decimal Encoder.Utf8 En
 Import ListNotations.
 Local Open Scope N_scope.
 
-Inductive c20_case := K (d : depth) (c : rgba) (impl : option (list N)).
+(* `tool`: the verdict of the Rust implementation of the property predicate (harness tool c20sweep,
+   used for the exhaustive sweep) on the same bytes; it must equal the verdict computed here *)
+Inductive c20_case := K (d : depth) (c : rgba) (impl : option (list N)) (tool : option bool).
 
 (* the three roles get three different colours: fg = c, bg = rot c, underline = rot (rot c) *)
 Definition rot (c : rgba) : rgba := mkRgba (cg c) (cb c) (cr c) (ca c).
@@ -63,10 +65,10 @@ Definition check_gray (o : option colour) (c : rgba) : bool * bool :=
 
 Definition and2 (a b : bool * bool) : bool * bool := (fst a && fst b, snd a && snd b).
 
-Definition c20_check (k : c20_case) : bool * bool :=
-  match k with
-  | K d c None => (false, false)
-  | K d c (Some ib) =>
+Definition c20_check_bytes (d : depth) (c : rgba) (impl : option (list N)) : bool * bool :=
+  match impl with
+  | None => (false, false)
+  | Some ib =>
       let c2 := rot c in let c3 := rot c2 in
       let opaque_ok := rgba_ok c && (ca c =? 255) in
       match vt_ops ib with
@@ -89,6 +91,14 @@ Definition c20_check (k : c20_case) : bool * bool :=
           end
       | _ => (false, false)
       end
+  end.
+
+Definition c20_check (k : c20_case) : bool * bool :=
+  match k with
+  | K d c impl tool =>
+      let '(agree, holds) := c20_check_bytes d c impl in
+      (* cross-check of the second implementation: same verdict on the property *)
+      (agree && match tool with Some v => Bool.eqb v holds | None => false end, holds)
   end.
 
 Definition c20_report := report c20_check.
